@@ -432,6 +432,56 @@ def c_programs():
 
 
 # ---------------------------------------------------------------------------
+# family D: a control construct K (if-then without else, if-then-else, \\+, call/1)
+# as the LAST goal of a NON-FINAL disjunct, preceded by 0..2 goals with 0..2
+# solutions each, in disjunction nests of 2 and 3 branches, followed or not by
+# a further goal; in a clause body and with the whole body under call/1.
+
+D_PRE = [("r", X), ("=", X, "a"), "fail"]                 # 2, 1, 0 solutions
+D_COND = ["true", "fail", ("r", Y), ("=", Y, "a")]
+D_THEN = ["true", ("=", Y, "b"), "fail"]
+D_ELSE = ["true", ("=", Y, "c")]
+D_OTHER = [("=", X, 9), ("r", X)]
+D_POST = [None, ("r", Y)]
+
+
+def d_constructs():
+    for c in D_COND:
+        for t in D_THEN:
+            yield ("->", c, t)
+            for e in D_ELSE:
+                yield (";", ("->", c, t), e)
+        yield ("\\+", c)
+        yield ("call", c)
+
+
+def d_bodies():
+    pres = [[]] + [[g] for g in D_PRE] + [[g1, g2] for g1 in D_PRE for g2 in D_PRE]
+    for k in d_constructs():
+        for pre in pres:
+            d1 = conj(pre + [k])
+            nests = []
+            for e in D_OTHER + ["fail"]:
+                nests.append((";", d1, e))
+            for e1 in D_OTHER:
+                for e2 in D_OTHER:
+                    nests.append((";", d1, (";", e1, e2)))      # K-disjunct first of three
+                    nests.append((";", e1, (";", d1, e2)))      # K-disjunct in the middle
+            for n in nests:
+                for post in D_POST:
+                    b = n if post is None else (",", n, post)
+                    yield b
+                    yield ("call", b)
+
+
+def d_programs():
+    for b in d_bodies():
+        p = b_program(b, "plain")
+        p["fam"] = "D"
+        yield p
+
+
+# ---------------------------------------------------------------------------
 # renaming and JSON encoding
 
 PROGRAM_PREDS = {("t", 2), ("t3", 3), ("s", 2), ("h", 2)}
